@@ -9,7 +9,7 @@ KINDS = ("DDM", "EDDM", "STEPD")
 
 def replayer(traces):
     return lambda i: {"driver": "error_based", "kind": traces[i]["kind"], "params": traces[i]["params"], "seq": traces[i]["seq"],
-                      "resets": traces[i]["resets"], "bads": traces[i]["bads"]}
+                      "resets": traces[i]["resets"], "bads": traces[i]["bads"], "enc": traces[i].get("enc", "")}
 
 
 def run(ctx):
@@ -34,8 +34,16 @@ def run(ctx):
     nt, ln = (40, 1500) if q else (300, 5000)
     for k in KINDS:
         # (user resets and refused calls - labels with several observations - are mixed into the long streams)
-        traces = pmap(D.run, [(k, D.random_params(k, ctx.rng), D.piecewise(ctx.rng, ln), D.default_enc, None,
+        # a quarter of the streams carry class labels as real callers have them (strings of unequal length, ints next to floats, several classes):
+        # the error sequence is whether label and prediction are EQUAL, in every epoch
+        from .c16 import encodings
+        names = ["strings of different lengths", "int first, floats later", "int vs float", "strings", "three classes", "zero-padded codes"]
+        encs = [(names[i % len(names)], encodings(random.Random(ctx.rng.randrange(10 ** 6)))[names[i % len(names)]]) if i % 4 == 1 else ("", D.default_enc)
+                for i in range(nt)]
+        traces = pmap(D.run, [(k, D.random_params(k, ctx.rng), ([0] if encs[i][0] else []) + D.piecewise(ctx.rng, ln), encs[i][1], None,
                                tuple(sorted(ctx.rng.sample(range(1, ln), 3))), tuple(sorted(ctx.rng.sample(range(1, ln), 3)))) for i in range(nt)])
+        for i, t in enumerate(traces):
+            t["enc"] = encs[i][0]
         ctx.validate(k, traces, "%s long random streams" % k, sabotage=D.sabotage, replay=replayer(traces),
                      nontrivial=lambda t: sum(1 for e in t["ev"] if e["state"] == "drift") >= 2)
     ctx.assumptions += ["standard normal quantiles z(1-alpha) for STEPD come from scipy.stats.norm.ppf (trusted table)",
@@ -45,6 +53,10 @@ def run(ctx):
 
 def replay(ctx, bundle):
     r = bundle["replay"]
-    t = D.run(r["kind"], r["params"], r["seq"], resets=tuple(r.get("resets", ())), bads=tuple(r.get("bads", ())))
+    enc = D.default_enc
+    if r.get("enc"):
+        from .c16 import encodings
+        enc = encodings(random.Random(0))[r["enc"]]
+    t = D.run(r["kind"], r["params"], r["seq"], enc=enc, resets=tuple(r.get("resets", ())), bads=tuple(r.get("bads", ())))
     ctx.validate(r["kind"], [t], "replay", replay=lambda i: r)
     return ctx.finish()
